@@ -99,6 +99,8 @@ PepImplCmp(a, b) == PCmpKeyL(PKey(a), PKey(b), FALSE)
 PHasLocal(s) == IndexOf(s, 43) # 0
 PepCmp(a, b) == PCmpKey(PKey(a), PKey(b))
 PInScope(s) == PParse(s).valid
+\* PEP 440 is_prerelease: a pre-release or a development release (a post-release or a local label alone is not)
+PIsPre(s) == LET q == PParse(s) IN q.valid /\ (q.hasPre \/ q.hasDev)
 
 PT(a, b, r) == PepCmp(S2C(a), S2C(b)) = r
 ASSUME /\ PT("1.0.dev1", "1.0a1", -1) /\ PT("1.0a1", "1.0b1", -1) /\ PT("1.0b1", "1.0rc1", -1) /\ PT("1.0rc1", "1.0", -1)
